@@ -897,5 +897,1164 @@ theorem fromBuf_spec {w n : Nat} {fs be : Bool} {buf : List Nat} {radix : Nat} {
   simp only [e2, e4, e16, hne256, Bool.or_self, Bool.false_eq_true, if_false]
   exact generalArm_spec hn hr h256 (by omega) rfl (by omega)
 
+/-! ### link with the Spec grammar -/
+
+theorem charDigit_valid {r c : Nat} (hr : r ≤ 36) (h : byteToDigit true c < r) :
+    charDigit c = some (byteToDigit true c) := by
+  unfold byteToDigit at h ⊢; unfold charDigit
+  simp only [if_true] at h ⊢
+  split_ifs at h ⊢ <;> first | rfl | (congr 1; omega) | omega
+
+theorem charDigit_invalid {r c : Nat} (hr : r ≤ 36) (h : ¬ byteToDigit true c < r) (d : Nat)
+    (hd : charDigit c = some d) : ¬ d < r := by
+  unfold byteToDigit at h; unfold charDigit at hd
+  simp only [if_true] at h
+  split_ifs at h hd <;> simp at hd <;> omega
+
+theorem digitsOf_eq {r : Nat} (hr : r ≤ 36) : ∀ (bs : List Nat),
+    digitsOf r bs = if hasInvalid true r bs then none else some (digs true bs)
+  | [] => by simp [digitsOf, hasInvalid]
+  | c :: cs => by
+    have h256 : r % 256 = r := Nat.mod_eq_of_lt (by omega)
+    unfold digitsOf hasInvalid
+    rw [h256]
+    by_cases h : byteToDigit true c < r
+    · rw [charDigit_valid hr h]
+      simp only [h, if_true, digitsOf_eq hr cs]
+      rw [if_neg (show ¬ byteToDigit true c ≥ r by omega)]
+      cases hasInvalid true r cs <;> simp
+    · rw [if_pos (show byteToDigit true c ≥ r by omega)]
+      cases hc : charDigit c with
+      | none => rfl
+      | some d => simp only [if_neg (charDigit_invalid hr h d hc)]; rfl
+
+theorem splitSign_eq (signOk : Bool) {s : List Nat} (hs : s ≠ []) :
+    splitSign signOk s = (signOk && s.head? == some 45,
+      s.drop (if ((signOk && s.head? == some 45) || s.head? == some 43) = true then 1 else 0)) := by
+  cases s with
+  | nil => exact absurd rfl hs
+  | cons c rest =>
+    unfold splitSign
+    by_cases h43 : c = 43
+    · subst h43; cases signOk <;> simp
+    · by_cases h45 : c = 45
+      · subst h45; cases signOk <;> simp
+      · cases signOk <;> simp [h43, h45]
+
+/-- the relation between what the Spec expects and what a parse returns -/
+def Matches (w n : Nat) : Expect → Outcome PRes → Prop
+  | .ok z, res => res = .ok (.ok (ofInt w n z))
+  | .empty, res => res = .ok (.err .empty)
+  | .invalidDigit, res => res = .ok (.err .invalidDigit)
+  | .posOverflow, res => res = .ok (.err .posOverflow)
+  | .negOverflow, res => res = .ok (.err .negOverflow)
+  | .anyErr, res => ∃ k, res = .ok (.err k)
+
+theorem ofInt_natCast {w n v : Nat} (h : v < M w n) : ofInt w n (v : Int) = ofNat w n v := by
+  unfold ofInt; rw [wrapU_natCast, Nat.mod_eq_of_lt h]
+
+/-! ### the signed finish (`BInt::from_str_radix` after the unsigned parse) -/
+
+theorem tz_top : ∀ (W v : Nat), 2 ^ W ≤ v → v < 2 ^ (W + 1) →
+    (Spec.trailingZeros (W + 1) v = W ↔ v = 2 ^ W)
+  | 0, v, h1, h2 => by
+    have : v = 1 := by simp at h1 h2; omega
+    subst this; simp [Spec.trailingZeros]
+  | W + 1, v, h1, h2 => by
+    rw [Nat.pow_succ] at h1 h2
+    unfold Spec.trailingZeros
+    by_cases hodd : v % 2 = 1
+    · rw [if_pos hodd]
+      constructor
+      · intro h; omega
+      · intro h; rw [h, Nat.pow_succ] at hodd; omega
+    · rw [if_neg hodd]
+      have ih := tz_top W (v / 2) (by omega) (by omega)
+      constructor
+      · intro h
+        have : v / 2 = 2 ^ W := ih.mp (by omega)
+        rw [Nat.pow_succ]; omega
+      · intro h
+        have : v / 2 = 2 ^ W := by rw [h, Nat.pow_succ]; omega
+        have := ih.mpr this
+        omega
+
+theorem testBit_top {W v : Nat} (h : v < 2 ^ (W + 1)) : v.testBit W = decide (2 ^ W ≤ v) := by
+  by_cases hv : 2 ^ W ≤ v
+  · have e : v = 2 ^ W + (v - 2 ^ W) := by omega
+    rw [e, Nat.testBit_two_pow_add_eq, Nat.testBit_lt_two_pow (by rw [Nat.pow_succ] at h; omega)]
+    simp
+  · rw [Nat.testBit_lt_two_pow (by omega)]; simp [hv]
+
+theorem wrapU_neg {m v : Nat} (hm : 0 < m) (hv : v ≤ m) : wrapU m (-(v : Int)) = (m - v) % m := by
+  by_cases h0 : v = 0
+  · subst h0; simp [wrapU]
+  · rw [Nat.mod_eq_of_lt (by omega)]
+    apply wrapU_eq_of (k := -1) (by omega)
+    push_cast [hv]; ring
+
+theorem finishParse_err (w n : Nat) (neg : Bool) (k : IntErrorKind) :
+    II.finishParse w n neg (.err k)
+      = .ok (.err (if (k == .posOverflow && neg) = true then .negOverflow else k)) := by
+  simp only [II.finishParse]; split <;> rfl
+
+theorem wrappingNeg_eq_ofInt {w n : Nat} {x : List Nat} (hw : 2 ≤ w) (hn : 1 ≤ n) (hx : WF w n x) :
+    II.wrappingNeg w x = ofInt w n (-(U w x : Int)) := by
+  obtain ⟨k, rfl⟩ : ∃ k, n = k + 1 := ⟨n - 1, by omega⟩
+  obtain ⟨g1, g2, _⟩ := II.negLoop_spec hw k x hx
+  unfold II.wrappingNeg II.overflowingNeg ofInt
+  apply U_injective g1 (WF_ofNat _ _ _)
+  rw [U_ofNat, g2, wrapU_neg (M_pos _ _) (Nat.le_of_lt (U_lt hx)), Nat.mod_mod]
+
+theorem finishParse_pos {w n : Nat} {x : List Nat} (hw : 1 ≤ w) (hn : 1 ≤ n) (hx : WF w n x) :
+    II.finishParse w n false (.ok x)
+      = .ok (if 2 * U w x < M w n then .ok x else .err .posOverflow) := by
+  unfold II.finishParse
+  simp only [Bool.false_eq_true, if_false]
+  rw [isNegative_eq_decide hw hn hx, S_eq hx]
+  have hu := U_lt hx
+  unfold toInt
+  by_cases h : 2 * U w x < M w n
+  · simp [h]
+  · simp only [h, if_false]
+    rw [if_pos (by simp; omega)]
+
+theorem finishParse_neg {s n : Nat} {x : List Nat} (hs3 : 1 ≤ s) (hs : s < 32) (hn : 1 ≤ n)
+    (hx : WF (2 ^ s) n x) :
+    II.finishParse (2 ^ s) n true (.ok x)
+      = .ok (if 2 * U (2 ^ s) x ≤ M (2 ^ s) n then .ok (ofInt (2 ^ s) n (-(U (2 ^ s) x : Int)))
+             else .err .negOverflow) := by
+  have hw2 : 2 ≤ 2 ^ s := by
+    calc 2 = 2 ^ 1 := rfl
+      _ ≤ 2 ^ s := Nat.pow_le_pow_right (by omega) hs3
+  have hWpos : 0 < 2 ^ s * n := Nat.mul_pos (by omega) hn
+  obtain ⟨W, hW⟩ : ∃ W, 2 ^ s * n = W + 1 := ⟨2 ^ s * n - 1, by omega⟩
+  have hu := U_lt hx
+  have hM : M (2 ^ s) n = 2 ^ (W + 1) := by unfold M; rw [hW]
+  unfold II.finishParse
+  simp only [if_true]
+  rw [Bits.bit_spec hs hx, if_pos (by omega), Bits.trailingZeros_spec hx, hW]
+  simp only [Nat.add_sub_cancel]
+  rw [wrappingNeg_eq_ofInt hw2 hn hx]
+  rw [hM] at hu ⊢
+  rw [testBit_top hu]
+  generalize U (2 ^ s) x = v at *
+  have hpw : 2 ^ (W + 1) = 2 * 2 ^ W := by rw [Nat.pow_succ]; omega
+  by_cases h1 : 2 ^ W ≤ v
+  · have htz := tz_top W v h1 hu
+    by_cases h2 : v = 2 ^ W
+    · have : Spec.trailingZeros (W + 1) v = W := htz.mpr h2
+      rw [if_neg (by simp [this]), if_pos (by omega)]
+    · have : Spec.trailingZeros (W + 1) v ≠ W := fun h => h2 (htz.mp h)
+      rw [if_pos (by simp [h1, this]), if_neg (by omega)]
+  · rw [if_neg (by simp [h1]), if_pos (by omega)]
+
+end Radix
+
+theorem UI.fromStrRadix_matches {w n : Nat} (hn : 1 ≤ n) (hw8 : 8 ≤ w) (hw4 : 4 ∣ w)
+    {radix : Nat} (hr : 2 ≤ radix) (hr36 : radix ≤ 36) (src : List Nat) :
+    Radix.Matches w n (Spec.Radix.expectParse radix false (M w n) src)
+      (UI.fromStrRadix w n src radix) := by
+  open Radix Spec.Radix in
+  unfold UI.fromStrRadix expectParse
+  have hin : inRange radix 36 = true := by simp [inRange, hr, hr36]
+  rw [hin]
+  simp only [Bool.not_true, Bool.false_eq_true, if_false]
+  by_cases hs : src = []
+  · subst hs; simp [Matches]
+  have hse : src.isEmpty = false := by cases src <;> simp_all
+  rw [hse]
+  simp only [Bool.false_eq_true, if_false]
+  unfold Grammar
+  rw [splitSign_eq false hs]
+  simp only [Bool.false_and, Bool.false_or]
+  generalize hls : (src.head? == some 43) = ls
+  have hspec := fromBuf_spec (w := w) (n := n) (fs := true) (be := true) (buf := src)
+    (radix := radix) (ls := ls) hn hw8 hw4 hr (by omega) (Or.inl rfl)
+  simp only [if_true] at hspec
+  by_cases hb : src.drop (if ls = true then 1 else 0) = []
+  · -- lone sign
+    have hl : ls = true ∧ src.length = 1 := by
+      cases ls
+      · simp at hb; exact absurd hb hs
+      · have := congrArg List.length hb
+        simp at this
+        have : 0 < src.length := List.length_pos_iff.mpr hs
+        exact ⟨rfl, by omega⟩
+    simp only [hb]
+    rw [hl.1, fromBuf_lone_sign _ _ _ _ _ _ hl.2]
+    simp [Matches]
+  · have hlen : (if ls = true then 1 else 0) < src.length := by
+      by_contra hc
+      exact hb (List.drop_eq_nil_of_le (by omega))
+    have hbe : (src.drop (if ls = true then 1 else 0)).isEmpty = false := by
+      cases h : src.drop (if ls = true then 1 else 0) <;> simp_all
+    obtain ⟨h1, h2⟩ := hspec hlen
+    rw [hbe, digitsOf_eq hr36]
+    simp only [Bool.false_eq_true, if_false]
+    cases hv : hasInvalid true radix (src.drop (if ls = true then 1 else 0))
+    · rw [h1 hv]
+      simp only [Bool.false_eq_true, if_false, denote]
+      by_cases hfit : valueOf radix (digs true (src.drop (if ls = true then 1 else 0))) < M w n
+      · have hrep : repU (M w n)
+            (valueOf radix (digs true (src.drop (if ls = true then 1 else 0))) : Int) := by
+          unfold repU; omega
+        simp only [hfit, if_true, hrep, decide_true, Matches]
+        rw [ofInt_natCast hfit]
+      · have hrep : ¬ repU (M w n)
+            (valueOf radix (digs true (src.drop (if ls = true then 1 else 0))) : Int) := by
+          unfold repU; omega
+        simp [hfit, hrep, Matches]
+    · obtain ⟨k, k1, k2⟩ := h2 hv
+      rw [k1]
+      simp only [if_true]
+      by_cases hshort : radix ^ (src.drop (if ls = true then 1 else 0)).length ≤ M w n
+      · rw [if_pos hshort, k2 hshort]; simp [Matches]
+      · rw [if_neg hshort]; exact ⟨k, rfl⟩
+
+theorem pow_s_facts {s : Nat} (hs3 : 3 ≤ s) : 8 ≤ 2 ^ s ∧ 4 ∣ 2 ^ s := by
+  obtain ⟨t, rfl⟩ : ∃ t, s = t + 3 := ⟨s - 3, by omega⟩
+  have : 0 < 2 ^ t := Nat.pow_pos (by omega)
+  refine ⟨by rw [Nat.pow_add]; omega, ⟨2 ^ t * 2, by rw [Nat.pow_add]; omega⟩⟩
+
+theorem II.fromStrRadix_matches {s n : Nat} (hn : 1 ≤ n) (hs3 : 3 ≤ s) (hs : s < 32)
+    {radix : Nat} (hr : 2 ≤ radix) (hr36 : radix ≤ 36) (src : List Nat) :
+    Radix.Matches (2 ^ s) n (Spec.Radix.expectParse radix true (M (2 ^ s) n) src)
+      (II.fromStrRadix (2 ^ s) n src radix) := by
+  open Radix Spec.Radix in
+  obtain ⟨hw8, hw4⟩ := pow_s_facts hs3
+  unfold II.fromStrRadix expectParse
+  have hin : inRange radix 36 = true := by simp [inRange, hr, hr36]
+  rw [hin]
+  simp only [Bool.not_true, Bool.false_eq_true, if_false]
+  by_cases hsrc : src = []
+  · subst hsrc; simp [Matches]
+  have hse : src.isEmpty = false := by cases src <;> simp_all
+  rw [hse]
+  simp only [Bool.false_eq_true, if_false, if_true]
+  unfold Grammar
+  rw [splitSign_eq true hsrc]
+  simp only [Bool.true_and]
+  generalize hneg : (src.head? == some 45) = neg
+  generalize hls : (neg || src.head? == some 43) = ls
+  have hspec := fromBuf_spec (w := 2 ^ s) (n := n) (fs := true) (be := true) (buf := src)
+    (radix := radix) (ls := ls) hn hw8 hw4 hr (by omega) (Or.inl rfl)
+  simp only [if_true] at hspec
+  by_cases hb : src.drop (if ls = true then 1 else 0) = []
+  · -- lone sign
+    have hl : ls = true ∧ src.length = 1 := by
+      cases ls
+      · simp at hb; exact absurd hb hsrc
+      · have := congrArg List.length hb
+        simp at this
+        have : 0 < src.length := List.length_pos_iff.mpr hsrc
+        exact ⟨rfl, by omega⟩
+    simp only [hb]
+    rw [hl.1, fromBuf_lone_sign _ _ _ _ _ _ hl.2]
+    simp [Matches, Outcome.bind, finishParse_err]
+  · have hlen : (if ls = true then 1 else 0) < src.length := by
+      by_contra hc
+      exact hb (List.drop_eq_nil_of_le (by omega))
+    have hbe : (src.drop (if ls = true then 1 else 0)).isEmpty = false := by
+      cases h : src.drop (if ls = true then 1 else 0) <;> simp_all
+    obtain ⟨h1, h2⟩ := hspec hlen
+    rw [hbe, digitsOf_eq hr36]
+    simp only [Bool.false_eq_true, if_false]
+    generalize src.drop (if ls = true then 1 else 0) = body at *
+    cases hv : hasInvalid true radix body
+    · rw [h1 hv]
+      simp only [Bool.false_eq_true, if_false, denote, Outcome.bind]
+      generalize valueOf radix (digs true body) = V
+      have hMe := M_even (w := 2 ^ s) (n := n) (by omega) hn
+      by_cases hfit : V < M (2 ^ s) n
+      · rw [if_pos hfit]
+        have hwf := WF_ofNat (2 ^ s) n V
+        have hU : U (2 ^ s) (ofNat (2 ^ s) n V) = V := by rw [U_ofNat, Nat.mod_eq_of_lt hfit]
+        cases neg
+        · rw [finishParse_pos (by omega) hn hwf, hU]
+          simp only [Bool.false_eq_true, if_false]
+          by_cases hrep : 2 * V < M (2 ^ s) n
+          · have : repS (M (2 ^ s) n) (V : Int) := by unfold repS; omega
+            simp only [hrep, if_true, this, decide_true, Matches]
+            rw [ofInt_natCast hfit]
+          · have : ¬ repS (M (2 ^ s) n) (V : Int) := by unfold repS; omega
+            simp [hrep, this, Matches]
+        · rw [finishParse_neg (by omega) hs hn hwf, hU]
+          simp only [if_true]
+          by_cases hrep : 2 * V ≤ M (2 ^ s) n
+          · have : repS (M (2 ^ s) n) (-(V : Int)) := by unfold repS; omega
+            simp only [hrep, if_true, this, decide_true, Matches]
+          · have : ¬ repS (M (2 ^ s) n) (-(V : Int)) := by unfold repS; omega
+            simp [hrep, this, Matches]
+      · rw [if_neg hfit, finishParse_err]
+        cases neg
+        · have : ¬ repS (M (2 ^ s) n) (V : Int) := by unfold repS; omega
+          simp [this, Matches]
+        · have : ¬ repS (M (2 ^ s) n) (-(V : Int)) := by unfold repS; omega
+          simp [this, Matches]
+    · obtain ⟨k, k1, k2⟩ := h2 hv
+      rw [k1]
+      simp only [if_true, Outcome.bind, finishParse_err]
+      by_cases hshort : radix ^ body.length ≤ M (2 ^ s) n
+      · rw [if_pos hshort, k2 hshort]; simp [Matches]
+      · rw [if_neg hshort]; exact ⟨_, rfl⟩
+
+/-! ### reading the named C10 statements off `expectParse` -/
+namespace Radix
+open Spec.Radix
+
+theorem Grammar_ne_nil {r : Nat} {sg : Bool} {s : List Nat} {g : Bool × List Nat}
+    (h : Grammar r sg s = some g) : s ≠ [] := by
+  intro hs; subst hs; simp [Grammar, splitSign] at h
+
+theorem Grammar_unsigned_fst {r : Nat} {s : List Nat} {g : Bool × List Nat}
+    (h : Grammar r false s = some g) : g.1 = false := by
+  have hs := Grammar_ne_nil h
+  unfold Grammar at h
+  rw [splitSign_eq false hs] at h
+  simp only [Bool.false_and] at h
+  split_ifs at h <;> (split at h <;> simp at h <;> rw [← h])
+
+theorem expect_of_grammar {r : Nat} {sg : Bool} {m : Nat} {s : List Nat} {g : Bool × List Nat}
+    (h : Grammar r sg s = some g) :
+    expectParse r sg m s =
+      if (if sg then decide (repS m (denote r g)) else decide (repU m (denote r g))) = true
+      then .ok (denote r g) else if g.1 then .negOverflow else .posOverflow := by
+  have hs := Grammar_ne_nil h
+  unfold expectParse
+  have : s.isEmpty = false := by cases s <;> simp_all
+  rw [this, h]; simp
+
+theorem expect_of_none {r : Nat} {sg : Bool} {m : Nat} {s : List Nat} (hs : s ≠ [])
+    (h : Grammar r sg s = none) :
+    (r ^ (splitSign sg s).2.length ≤ m → expectParse r sg m s = .invalidDigit) ∧
+    (expectParse r sg m s = .invalidDigit ∨ expectParse r sg m s = .anyErr) := by
+  unfold expectParse
+  have : s.isEmpty = false := by cases s <;> simp_all
+  rw [this, h]
+  simp only [Bool.false_eq_true, if_false]
+  by_cases hb : (splitSign sg s).2.isEmpty = true
+  · simp [hb]
+  · simp only [hb, if_false]
+    by_cases hl : r ^ (splitSign sg s).2.length ≤ m
+    · simp [hl]
+    · simp [hl]
+
+theorem expect_ok_inv {r : Nat} {sg : Bool} {m : Nat} {s : List Nat} {z : Int}
+    (h : expectParse r sg m s = .ok z) :
+    ∃ g, Grammar r sg s = some g ∧ z = denote r g ∧
+      (if sg then repS m (denote r g) else repU m (denote r g)) := by
+  unfold expectParse at h
+  by_cases hs : s.isEmpty = true
+  · simp [hs] at h
+  · have hs' : s.isEmpty = false := by simpa using hs
+    simp only [hs', Bool.false_eq_true, if_false] at h
+    cases hg : Grammar r sg s with
+    | none =>
+      rw [hg] at h
+      simp only at h
+      split_ifs at h
+    | some g =>
+      rw [hg] at h
+      simp only at h
+      refine ⟨g, rfl, ?_⟩
+      cases sg
+      · simp only [Bool.false_eq_true, if_false] at h ⊢
+        by_cases hrep : repU m (denote r g)
+        · simp only [hrep, decide_true, if_true, Expect.ok.injEq] at h; exact ⟨h.symm, hrep⟩
+        · simp only [hrep, decide_false, Bool.false_eq_true, if_false] at h; split_ifs at h
+      · simp only [if_true] at h ⊢
+        by_cases hrep : repS m (denote r g)
+        · simp only [hrep, decide_true, if_true, Expect.ok.injEq] at h; exact ⟨h.symm, hrep⟩
+        · simp only [hrep, decide_false, Bool.false_eq_true, if_false] at h; split_ifs at h
+
+theorem Matches_ok_inv {w n : Nat} {e : Expect} {x : List Nat} (h : Matches w n e (.ok (.ok x))) :
+    ∃ z, e = .ok z ∧ x = ofInt w n z := by
+  cases e <;> simp [Matches] at h
+  exact ⟨_, rfl, h⟩
+
+theorem Matches_not_panic {w n : Nat} {e : Expect} (h : Matches w n e .panic) : False := by
+  cases e <;> simp [Matches] at h
+
+theorem Matches_err {w n : Nat} {e : Expect} {res : Outcome PRes} (h : Matches w n e res)
+    (he : e = .invalidDigit ∨ e = .anyErr) : ∃ k, res = .ok (.err k) := by
+  rcases he with he | he <;> subst he
+  · exact ⟨_, h⟩
+  · exact h
+
+theorem WF_ofInt (w n : Nat) (z : Int) : WF w n (ofInt w n z) := WF_ofNat w n _
+theorem U_ofInt_of_rep {w n : Nat} {z : Int} (h : repU (M w n) z) : (U w (ofInt w n z) : Int) = z := by
+  unfold ofInt
+  rw [U_ofNat, Nat.mod_eq_of_lt (wrapU_lt (M_pos w n) z), wrapU_of_rep h]
+theorem S_ofInt_of_rep {w n : Nat} {z : Int} (h : repS (M w n) z) : S w (ofInt w n z) = z := by
+  rw [S_eq (WF_ofInt w n z)]
+  unfold ofInt
+  rw [U_ofNat, Nat.mod_eq_of_lt (wrapU_lt (M_pos w n) z)]
+  exact wrapS_of_rep (M_pos w n) h
+
+end Radix
+/-! ## C11: printing -/
+namespace Radix
+open Spec.Radix
+
+/-! ### canonical digits (Spec side) -/
+
+theorem digitsAux_fuel {r : Nat} (hr : 2 ≤ r) : ∀ (f v f' : Nat), v ≤ f → v ≤ f' →
+    digitsAux r f v = digitsAux r f' v
+  | 0, v, f', h, _ => by
+    have : v = 0 := by omega
+    subst this; cases f' <;> simp [digitsAux]
+  | f + 1, v, f', h, h' => by
+    by_cases hv : v = 0
+    · subst hv; cases f' <;> simp [digitsAux]
+    · obtain ⟨f'', rfl⟩ : ∃ k, f' = k + 1 := ⟨f' - 1, by omega⟩
+      simp only [digitsAux, hv, if_false]
+      have : v / r < v := Nat.div_lt_self (by omega) (by omega)
+      rw [digitsAux_fuel hr f (v / r) f'' (by omega) (by omega)]
+
+theorem digitsLE_zero (r : Nat) : digitsLE r 0 = [] := rfl
+theorem digitsLE_pos {r v : Nat} (hr : 2 ≤ r) (hv : 0 < v) :
+    digitsLE r v = v % r :: digitsLE r (v / r) := by
+  unfold digitsLE
+  obtain ⟨k, rfl⟩ : ∃ k, v = k + 1 := ⟨v - 1, by omega⟩
+  simp only [digitsAux, Nat.succ_ne_zero, if_false]
+  have : (k + 1) / r < k + 1 := Nat.div_lt_self (by omega) (by omega)
+  rw [digitsAux_fuel hr k ((k + 1) / r) ((k + 1) / r) (by omega) (Nat.le_refl _)]
+
+/-- `power` digits of a remainder followed by the digits of the quotient -/
+theorem emit_append_digitsLE {r : Nat} (hr : 2 ≤ r) : ∀ (p q ρ : Nat), 0 < q → ρ < r ^ p →
+    emit r p ρ ++ digitsLE r q = digitsLE r (q * r ^ p + ρ)
+  | 0, q, ρ, _, h => by
+    have : ρ = 0 := by simpa using h
+    subst this; simp [emit]
+  | p + 1, q, ρ, hq, h => by
+    have hpos : 0 < r ^ (p + 1) := Nat.pow_pos (by omega)
+    have hv : 0 < q * r ^ (p + 1) + ρ := by
+      have := Nat.mul_pos hq hpos; omega
+    rw [digitsLE_pos hr hv]
+    simp only [emit, List.cons_append]
+    have e : q * r ^ (p + 1) + ρ = r * (q * r ^ p) + ρ := by rw [Nat.pow_succ]; ring
+    congr 1
+    · rw [e, Nat.mul_add_mod]
+    · rw [emit_append_digitsLE hr p q (ρ / r) hq
+        (by rw [Nat.pow_succ] at h; exact Nat.div_lt_of_lt_mul (by rw [Nat.mul_comm]; exact h))]
+      congr 1
+      rw [e, Nat.mul_add_div (by omega)]
+
+theorem drainRadix_eq {r : Nat} (hr : 2 ≤ r) : ∀ (f v : Nat), v < 2 ^ f →
+    drainRadix r f v = digitsLE r v
+  | 0, v, h => by
+    have : v = 0 := by simpa using h
+    subst this; rfl
+  | f + 1, v, h => by
+    unfold drainRadix
+    by_cases hv : v = 0
+    · subst hv; rfl
+    · have hb : (v == 0) = false := by simpa using hv
+      rw [hb]
+      simp only [Bool.false_eq_true, if_false]
+      rw [digitsLE_pos hr (by omega)]
+      congr 1
+      apply drainRadix_eq hr f
+      have : v / r ≤ v / 2 := Nat.div_le_div_left hr (by omega)
+      rw [Nat.pow_succ] at h; omega
+
+/-! ### `radix_base_half` -/
+
+theorem radixBaseHalfLoop_spec {w r : Nat} (hr : 2 ≤ r) : ∀ (f base power : Nat),
+    base = r ^ power → base < B w → power + f = w + 1 → 1 ≤ power →
+    ∃ p, radixBaseHalfLoop w r f base power = (r ^ p, p) ∧ 1 ≤ p ∧ r ^ p < B w
+  | 0, base, power, hb, hlt, hf, _ => by
+    exfalso
+    have : power = w + 1 := by omega
+    subst this
+    have h1 := two_pow_le_pow hr (w + 1)
+    have h2 : 2 ^ w < 2 ^ (w + 1) := Nat.pow_lt_pow_right (by omega) (by omega)
+    unfold B at hlt; omega
+  | f + 1, base, power, hb, hlt, hf, hp => by
+    unfold radixBaseHalfLoop
+    simp only
+    by_cases h : base * r < B w ∧ base * r ≤ halfBitsMax w
+    · rw [if_pos h]
+      exact radixBaseHalfLoop_spec hr f (base * r) (power + 1) (by rw [hb, Nat.pow_succ]) h.1
+        (by omega) (by omega)
+    · rw [if_neg h]
+      exact ⟨power, by rw [hb], hp, by rw [← hb]; exact hlt⟩
+
+theorem radixBaseHalf_spec {w r : Nat} (hr : 2 ≤ r) (hlt : r < B w) :
+    ∃ p, radixBaseHalf w r = (r ^ p, p) ∧ 1 ≤ p ∧ r ^ p < B w := by
+  unfold radixBaseHalf
+  rw [Nat.mod_eq_of_lt hlt]
+  exact radixBaseHalfLoop_spec hr w r 1 (by simp) hlt (by omega) (by omega)
+
+/-! ### `last_digit_index` -/
+
+theorem U_pos_of_mem {w : Nat} : ∀ (ds : List Nat) (d : Nat), d ∈ ds → d ≠ 0 → 0 < U w ds
+  | [], d, h, _ => by simp at h
+  | e :: es, d, h, hd => by
+    rcases List.mem_cons.mp h with h | h
+    · subst h; simp only [U_cons]; omega
+    · have := U_pos_of_mem (w := w) es d h hd
+      have hB := B_pos w
+      simp only [U_cons]
+      have : 0 < B w * U w es := Nat.mul_pos hB this
+      omega
+
+theorem ldi_pos_ge {w : Nat} {x : List Nat} (h : 0 < lastDigitIndex x) : B w ≤ U w x := by
+  match x, h with
+  | [], h => simp [lastDigitIndex] at h
+  | d :: ds, h =>
+    unfold lastDigitIndex at h
+    simp only at h
+    have hne : lastDigitIndex.go ds 1 0 ≠ 0 := by omega
+    rw [Ne, DivL.go_eq_zero ds 1 0 (by omega)] at hne
+    have : ∃ e ∈ ds, e ≠ 0 := by
+      by_contra hc
+      apply hne
+      refine ⟨rfl, fun e he => ?_⟩
+      by_contra hz; exact hc ⟨e, he, hz⟩
+    obtain ⟨e, he, hz⟩ := this
+    have := U_pos_of_mem (w := w) ds e he hz
+    have hB := B_pos w
+    simp only [U_cons]
+    have : B w * 1 ≤ B w * U w ds := Nat.mul_le_mul_left _ this
+    omega
+
+/-! ### `to_radix_digits_le` -/
+
+theorem divLoop_spec {w n r p : Nat} (hn : 1 ≤ n) (hr : 2 ≤ r) (hp : 1 ≤ p) (hbase : r ^ p < B w) :
+    ∀ (f : Nat) (copy : List Nat), WF w n copy → U w copy < 2 ^ f →
+    divLoop w r (r ^ p) p (f + 1) copy = .ok (digitsLE r (U w copy)) := by
+  have hbase2 : 2 ≤ r ^ p := by
+    calc 2 ≤ r := hr
+      _ = r ^ 1 := (Nat.pow_one r).symm
+      _ ≤ r ^ p := Nat.pow_le_pow_right (by omega) hp
+  intro f
+  induction f with
+  | zero =>
+    intro copy hc hu
+    have hu0 : U w copy = 0 := by simpa using hu
+    unfold divLoop
+    have hl : ¬ lastDigitIndex copy > 0 := by
+      intro h; have := ldi_pos_ge (w := w) h; have := B_pos w; omega
+    rw [if_neg hl]
+    obtain ⟨e1, e2⟩ := DivL.ldi_zero hc (by omega)
+    rw [← e1, hu0]
+    cases w <;> rfl
+  | succ f ih =>
+    intro copy hc hu
+    unfold divLoop
+    by_cases hl : lastDigitIndex copy > 0
+    · rw [if_pos hl]
+      have hge := ldi_pos_ge (w := w) hl
+      obtain ⟨q, ρ, e1, e2, e3, e4⟩ := UI.u_divRemDigit_spec (w := w) (n := n) (a := copy)
+        (d := r ^ p) (by omega) hbase hc
+      rw [e1]
+      simp only
+      have hqpos : 0 < U w q := by
+        by_contra h0
+        have : U w q = 0 := by omega
+        rw [this] at e2; omega
+      have hqlt : U w q < 2 ^ f := by
+        have h1 : U w q * 2 ≤ U w q * r ^ p := Nat.mul_le_mul_left _ hbase2
+        rw [Nat.pow_succ] at hu; omega
+      rw [ih q e4 hqlt]
+      simp only
+      rw [emit_append_digitsLE hr p (U w q) ρ hqpos e3, e2]
+    · rw [if_neg hl]
+      obtain ⟨e1, e2⟩ := DivL.ldi_zero hc (by omega)
+      rw [← e1, drainRadix_eq hr w _ (by rw [e1]; exact e2)]
+
+theorem toRadixDigitsLe_spec {w n r : Nat} {x : List Nat} (hn : 1 ≤ n) (hr : 2 ≤ r) (hlt : r < B w)
+    (hx : WF w n x) : toRadixDigitsLe w x r = .ok (digitsLE r (U w x)) := by
+  obtain ⟨p, e, hp, hb⟩ := radixBaseHalf_spec hr hlt
+  unfold toRadixDigitsLe
+  simp only [e, Nat.mod_eq_of_lt hlt, hx.1]
+  exact divLoop_spec hn hr hp hb (w * n) x hx (U_lt hx)
+
+/-! ### `last_digit_index`, recursively -/
+
+/-- index of the most significant non-zero digit (0 if none), by structural recursion -/
+def ldiRec : List Nat → Nat
+  | [] => 0
+  | _ :: ds => if isZero ds then 0 else 1 + ldiRec ds
+
+theorem go_eq_ldiRec : ∀ (ds : List Nat) (i idx : Nat),
+    lastDigitIndex.go ds i idx = if isZero ds then idx else i + ldiRec ds
+  | [], i, idx => by simp [lastDigitIndex.go, isZero]
+  | d :: ds, i, idx => by
+    simp only [lastDigitIndex.go, go_eq_ldiRec ds, isZero, ldiRec]
+    by_cases hd : d = 0
+    · subst hd; simp; cases isZero ds <;> simp; omega
+    · have : (d != 0) = true := by simpa using hd
+      simp only [this, if_true, Bool.false_eq_true, if_false]
+      cases isZero ds <;> simp; omega
+
+theorem lastDigitIndex_eq_ldiRec (x : List Nat) : lastDigitIndex x = ldiRec x := by
+  cases x with
+  | nil => rfl
+  | cons d ds =>
+    unfold lastDigitIndex
+    simp only [go_eq_ldiRec, ldiRec]
+
+theorem ldiRec_lt : ∀ (x : List Nat), x ≠ [] → ldiRec x < x.length
+  | [], h => absurd rfl h
+  | d :: ds, _ => by
+    unfold ldiRec
+    split
+    · simp
+    · rename_i h
+      have hne : ds ≠ [] := by intro e; subst e; simp [isZero] at h
+      have := ldiRec_lt ds hne
+      simp; omega
+
+theorem ldiRec_top_ne_zero {w : Nat} : ∀ (x : List Nat), U w x ≠ 0 → x.getD (ldiRec x) 0 ≠ 0
+  | [], h => by simp at h
+  | d :: ds, h => by
+    unfold ldiRec
+    by_cases hz : isZero ds = true
+    · rw [if_pos hz]
+      have := (isZero_iff (w := w) ds).mp hz
+      simp only [U_cons, this] at h
+      simpa using h
+    · rw [if_neg hz]
+      have hu : U w ds ≠ 0 := fun e => hz ((isZero_iff (w := w) ds).mpr e)
+      have := ldiRec_top_ne_zero (w := w) ds hu
+      rw [Nat.add_comm]; simpa using this
+
+/-- digit-chunk decomposition of the canonical digits (`B w = r^c`) -/
+theorem digitsLE_chunks {w r c : Nat} (hr : 2 ≤ r) (hB : B w = r ^ c) : ∀ (n : Nat) (x : List Nat),
+    WF w n x → U w x ≠ 0 →
+    digitsLE r (U w x)
+      = (x.take (ldiRec x)).flatMap (emit r c) ++ digitsLE r (x.getD (ldiRec x) 0)
+  | _, [], _, h => by simp at h
+  | 0, d :: ds, hx, _ => absurd hx.1 (by simp)
+  | n + 1, d :: ds, hx, h => by
+    rw [WF_cons] at hx
+    unfold ldiRec
+    by_cases hz : isZero ds = true
+    · rw [if_pos hz]
+      have := (isZero_iff (w := w) ds).mp hz
+      simp [U_cons, this]
+    · rw [if_neg hz]
+      have hu : U w ds ≠ 0 := fun e => hz ((isZero_iff (w := w) ds).mpr e)
+      have ih := digitsLE_chunks hr hB n ds hx.2 hu
+      rw [Nat.add_comm 1, List.take_succ_cons, List.flatMap_cons, List.getD_cons_succ, List.append_assoc,
+        ← ih, emit_append_digitsLE hr c (U w ds) d (by omega) (by rw [← hB]; exact hx.1)]
+      congr 1
+      rw [U_cons, hB]; ring
+
+/-! ### `to_bitwise_digits_le` and the `u8`/256 copy -/
+
+theorem mask_eq (bits : Nat) : (1 <<< bits) - 1 = 2 ^ bits - 1 := by rw [Nat.one_shiftLeft]
+
+theorem chop_eq_emit (bits : Nat) : ∀ (k d : Nat),
+    chop (2 ^ bits - 1) bits k d = emit (2 ^ bits) k d
+  | 0, _ => rfl
+  | k + 1, d => by
+    simp only [chop, emit, chop_eq_emit bits k, Nat.and_two_pow_sub_one_eq_mod,
+      Nat.shiftRight_eq_div_pow]
+
+theorem drainBits_eq_drainRadix (bits : Nat) : ∀ (f r : Nat),
+    drainBits (2 ^ bits - 1) bits f r = drainRadix (2 ^ bits) f r
+  | 0, _ => rfl
+  | f + 1, r => by
+    simp only [drainBits, drainRadix, drainBits_eq_drainRadix bits f,
+      Nat.and_two_pow_sub_one_eq_mod, Nat.shiftRight_eq_div_pow]
+
+theorem toBitwiseDigitsLe_spec {w n bits c : Nat} {x : List Nat} (hb : 1 ≤ bits) (hw : w = bits * c)
+    (hx : WF w n x) (hnz : U w x ≠ 0) :
+    toBitwiseDigitsLe w x bits = digitsLE (2 ^ bits) (U w x) := by
+  have hr : 2 ≤ 2 ^ bits := by
+    calc 2 = 2 ^ 1 := rfl
+      _ ≤ 2 ^ bits := Nat.pow_le_pow_right (by omega) hb
+  have hB : B w = (2 ^ bits) ^ c := by unfold B; rw [hw, Nat.pow_mul]
+  have hwc : w / bits = c := by rw [hw]; exact Nat.mul_div_cancel_left c (by omega)
+  unfold toBitwiseDigitsLe
+  simp only [lastDigitIndex_eq_ldiRec, hwc, mask_eq]
+  rw [digitsLE_chunks hr hB n x hx hnz, drainBits_eq_drainRadix]
+  have htop : x.getD (ldiRec x) 0 < 2 ^ w := by
+    have hne : x ≠ [] := by intro e; subst e; simp at hnz
+    have hl := ldiRec_lt x hne
+    rw [List.getD_eq_getElem?_getD, List.getElem?_eq_getElem hl]
+    exact hx.2 _ (List.getElem_mem hl)
+  rw [drainRadix_eq hr w _ htop]
+  congr 1
+  congr 1
+  funext d
+  exact chop_eq_emit bits c d
+
+theorem emit_one {r d : Nat} (hd : d < r) : emit r 1 d = [d] := by
+  simp [emit, Nat.mod_eq_of_lt hd]
+
+theorem take_ldi_succ_eq {w n : Nat} {x : List Nat} (hx : WF w n x) (hnz : U w x ≠ 0) :
+    x.take (ldiRec x + 1) = digitsLE (B w) (U w x) := by
+  have hB2 : 2 ≤ B w := by
+    by_contra hc
+    have hB1 : B w = 1 := by have := B_pos w; omega
+    have : U w x < M w n := U_lt hx
+    rw [M_eq_pow, hB1, Nat.one_pow] at this; omega
+  rw [digitsLE_chunks (c := 1) hB2 (by simp) n x hx hnz]
+  have hne : x ≠ [] := by intro e; subst e; simp at hnz
+  have hl := ldiRec_lt x hne
+  have htop : x.getD (ldiRec x) 0 < B w := by
+    rw [List.getD_eq_getElem?_getD, List.getElem?_eq_getElem hl]
+    exact hx.2 _ (List.getElem_mem hl)
+  have htop0 := ldiRec_top_ne_zero (w := w) x hnz
+  rw [digitsLE_pos hB2 (by omega), Nat.mod_eq_of_lt htop, Nat.div_eq_of_lt htop, digitsLE_zero]
+  have hfm : ∀ (l : List Nat), (∀ d ∈ l, d < B w) → l.flatMap (emit (B w) 1) = l := by
+    intro l
+    induction l with
+    | nil => intro _; rfl
+    | cons a as ih =>
+      intro h
+      rw [List.flatMap_cons, emit_one (h a (by simp)), ih (fun d hd => h d (by simp [hd]))]; rfl
+  rw [hfm _ (fun d hd => hx.2 d (List.mem_of_mem_take hd))]
+  rw [List.take_add_one, List.getD_eq_getElem?_getD, List.getElem?_eq_getElem hl]
+  simp
+
+/-! ### `to_inexact_bitwise_digits_le` (radices 8, 32, 64, 128)
+
+  Per digit `c` with `rbits` pending bits `r`: `T = r + c·2^rbits` is the exact accumulator.  The
+  stored `r | c << rbits` is `T mod 2^w` (the top `rbits` bits of `c` are shifted out); the first
+  output digit only needs the low `bits ≤ w` bits, and the reload `r = c >> (w - (rbits - bits))`
+  then restores `T / 2^bits` exactly, after which `rbits < w` and the loop is exact. -/
+
+theorem emit_succ' (R k v : Nat) : emit R (k + 1) v = v % R :: emit R k (v / R) := rfl
+
+theorem emit_add (R : Nat) : ∀ (k K v : Nat), emit R (k + K) v = emit R k v ++ emit R K (v / R ^ k)
+  | 0, K, v => by simp [emit]
+  | k + 1, K, v => by
+    rw [Nat.add_right_comm, emit_succ', emit_succ', emit_add R k K (v / R), List.cons_append,
+      Nat.div_div_eq_div_mul, Nat.pow_succ, Nat.mul_comm]
+
+theorem emit_add_mul (R : Nat) (hR : 0 < R) : ∀ (k v X : Nat), emit R k (v + R ^ k * X) = emit R k v
+  | 0, _, _ => rfl
+  | k + 1, v, X => by
+    rw [emit_succ', emit_succ']
+    have e : v + R ^ (k + 1) * X = v + R * (R ^ k * X) := by rw [Nat.pow_succ]; ring
+    rw [e, Nat.add_mul_mod_self_left, Nat.add_mul_div_left _ _ hR, emit_add_mul R hR k]
+
+theorem inexactInner_exact {w bits c : Nat} (hb : 1 ≤ bits) : ∀ (k f r rb : Nat), rb ≤ w → k < f →
+    bits * k ≤ rb → rb < bits * (k + 1) →
+    inexactInner w bits (2 ^ bits - 1) c f r rb
+      = (r / (2 ^ bits) ^ k, rb - bits * k, emit (2 ^ bits) k r)
+  | 0, f, r, rb, _, hf, _, h2 => by
+    obtain ⟨f', rfl⟩ : ∃ f', f = f' + 1 := ⟨f - 1, by omega⟩
+    unfold inexactInner
+    rw [if_neg (by omega)]
+    simp [emit]
+  | k + 1, f, r, rb, hw, hf, h1, h2 => by
+    obtain ⟨f', rfl⟩ : ∃ f', f = f' + 1 := ⟨f - 1, by omega⟩
+    unfold inexactInner
+    rw [Nat.mul_succ] at h1 h2
+    rw [if_pos (by omega)]
+    simp only
+    rw [if_neg (by omega), inexactInner_exact hb k f' _ (rb - bits) (by omega) (by omega) (by omega)
+      (by have := Nat.mul_succ bits k; omega)]
+    simp only [Nat.and_two_pow_sub_one_eq_mod, Nat.shiftRight_eq_div_pow, emit_succ']
+    rw [Nat.div_div_eq_div_mul, Nat.pow_succ, Nat.mul_comm, Nat.mul_succ]
+    congr 2
+    omega
+
+theorem inexactInner_digit {w bits c r rbits : Nat} (hb : 1 ≤ bits) (hbw : bits ≤ w) (hb8 : bits ≤ 8)
+    (hrb : rbits < bits) (hr : r < 2 ^ rbits) (hc : c < 2 ^ w) :
+    inexactInner w bits (2 ^ bits - 1) c (w + 8) (r ||| ((c <<< rbits) % B w)) (rbits + w)
+      = ((r + c * 2 ^ rbits) / (2 ^ bits) ^ ((rbits + w) / bits), (rbits + w) % bits,
+          emit (2 ^ bits) ((rbits + w) / bits) (r + c * 2 ^ rbits)) := by
+  have hdm := Nat.div_add_mod (rbits + w) bits
+  have hml := Nat.mod_lt (rbits + w) (show 0 < bits by omega)
+  generalize hk : (rbits + w) / bits = k at *
+  generalize hrb' : (rbits + w) % bits = rb' at *
+  have hkle : k ≤ rbits + w := by
+    have : 1 * k ≤ bits * k := Nat.mul_le_mul_right _ hb
+    omega
+  by_cases h0 : rbits = 0
+  · subst h0
+    have hr0 : r = 0 := by simpa using hr
+    subst hr0
+    have : (0 ||| (c <<< 0) % B w) = c := by
+      simp [B, Nat.mod_eq_of_lt hc]
+    rw [this]
+    simp only [Nat.zero_add, Nat.pow_zero, Nat.mul_one] at *
+    rw [inexactInner_exact hb k (w + 8) c w (Nat.le_refl _) (by omega) (by omega)
+      (by rw [Nat.mul_succ]; omega)]
+    congr 2
+    omega
+  · -- the top `rbits` bits of `c` were shifted out; they are reloaded after the first digit
+    have hsplit : 2 ^ w = 2 ^ (w - rbits) * 2 ^ rbits := by
+      rw [← Nat.pow_add]; congr 1; omega
+    have hsh : (c <<< rbits) % B w = (c % 2 ^ (w - rbits)) * 2 ^ rbits := by
+      unfold B; rw [Nat.shiftLeft_eq, hsplit, Nat.mul_mod_mul_right]
+    rw [hsh, or_mul_pow _ hr]
+    have hk1 : 1 ≤ k := by
+      by_contra hc0
+      have : k = 0 := by omega
+      subst this; omega
+    obtain ⟨k', rfl⟩ : ∃ k', k = k' + 1 := ⟨k - 1, by omega⟩
+    rw [Nat.mul_succ] at hdm
+    unfold inexactInner
+    rw [if_pos (by omega)]
+    simp only
+    rw [if_pos (by omega), inexactInner_exact hb k' (w + 7) _ (rbits + w - bits) (by omega) (by omega)
+      (by omega) (by rw [Nat.mul_succ]; omega)]
+    simp only [Nat.and_two_pow_sub_one_eq_mod, Nat.shiftRight_eq_div_pow, emit_succ']
+    -- the three components
+    have hT : (r + c * 2 ^ rbits) % 2 ^ w = r + c % 2 ^ (w - rbits) * 2 ^ rbits := by
+      have hlt : r + c % 2 ^ (w - rbits) * 2 ^ rbits < 2 ^ w := by
+        have h1 : c % 2 ^ (w - rbits) < 2 ^ (w - rbits) := Nat.mod_lt _ (Nat.pow_pos (by omega))
+        have h2 : (c % 2 ^ (w - rbits) + 1) * 2 ^ rbits ≤ 2 ^ (w - rbits) * 2 ^ rbits :=
+          Nat.mul_le_mul_right _ h1
+        rw [Nat.add_mul] at h2; omega
+      have hc' : c = c % 2 ^ (w - rbits) + 2 ^ (w - rbits) * (c / 2 ^ (w - rbits)) :=
+        (Nat.mod_add_div c _).symm
+      have : r + c * 2 ^ rbits
+          = (r + c % 2 ^ (w - rbits) * 2 ^ rbits) + 2 ^ w * (c / 2 ^ (w - rbits)) := by
+        conv => lhs; rw [hc']
+        rw [hsplit]; ring
+      rw [this, Nat.add_mul_mod_self_left, Nat.mod_eq_of_lt hlt]
+    have ho : (r + c % 2 ^ (w - rbits) * 2 ^ rbits) % 2 ^ bits = (r + c * 2 ^ rbits) % 2 ^ bits := by
+      rw [← hT, Nat.mod_mod_of_dvd _ (Nat.pow_dvd_pow 2 hbw)]
+    have hq : c / 2 ^ (w - (rbits + w - bits)) = (r + c * 2 ^ rbits) / 2 ^ bits := by
+      have e1 : w - (rbits + w - bits) = bits - rbits := by omega
+      have e2 : 2 ^ bits = 2 ^ rbits * 2 ^ (bits - rbits) := by
+        rw [← Nat.pow_add]; congr 1; omega
+      rw [e1, e2, ← Nat.div_div_eq_div_mul, Nat.add_mul_div_right _ _ (Nat.pow_pos (by omega)),
+        Nat.div_eq_of_lt hr, Nat.zero_add]
+    rw [ho, hq, Nat.div_div_eq_div_mul, Nat.pow_succ, Nat.mul_comm ((2 ^ bits) ^ k')]
+    congr 2
+    omega
+
+theorem inexactOuter_spec {w bits : Nat} (hb : 1 ≤ bits) (hbw : bits ≤ w) (hb8 : bits ≤ 8) :
+    ∀ (cs : List Nat) (r rbits : Nat), (∀ c ∈ cs, c < 2 ^ w) → rbits < bits → r < 2 ^ rbits →
+    ∃ K, inexactOuter w bits (2 ^ bits - 1) cs r rbits = emit (2 ^ bits) K (r + 2 ^ rbits * U w cs) ∧
+      rbits + w * cs.length ≤ bits * K
+  | [], r, rbits, _, hrb, hr => by
+    unfold inexactOuter
+    by_cases h0 : rbits = 0
+    · subst h0
+      have : r = 0 := by simpa using hr
+      subst this
+      exact ⟨0, by simp [emit], by simp⟩
+    · have hb0 : (rbits != 0) = true := by simpa using h0
+      rw [hb0]
+      refine ⟨1, ?_, by simp; omega⟩
+      have h1 : 2 ^ rbits < 2 ^ bits := Nat.pow_lt_pow_right (by omega) hrb
+      have h2 : 2 ^ bits ≤ 2 ^ 8 := Nat.pow_le_pow_right (by omega) hb8
+      simp [emit, Nat.mod_eq_of_lt (show r < 256 by omega), Nat.mod_eq_of_lt (show r < 2 ^ bits by omega)]
+  | c :: cs, r, rbits, hcs, hrb, hr => by
+    have hc : c < 2 ^ w := hcs c (by simp)
+    unfold inexactOuter
+    simp only
+    rw [inexactInner_digit hb hbw hb8 hrb hr hc]
+    simp only
+    have hdm := Nat.div_add_mod (rbits + w) bits
+    have hml := Nat.mod_lt (rbits + w) (show 0 < bits by omega)
+    generalize (rbits + w) / bits = k at *
+    generalize (rbits + w) % bits = rb' at *
+    have hRk : (2 ^ bits) ^ k * 2 ^ rb' = 2 ^ (rbits + w) := by
+      rw [← Nat.pow_mul, ← Nat.pow_add, hdm]
+    have hTlt : r + c * 2 ^ rbits < 2 ^ (rbits + w) := by
+      have : (c + 1) * 2 ^ rbits ≤ 2 ^ w * 2 ^ rbits := Nat.mul_le_mul_right _ hc
+      rw [Nat.add_mul] at this
+      rw [Nat.pow_add, Nat.mul_comm (2 ^ rbits)]; omega
+    have hr' : (r + c * 2 ^ rbits) / (2 ^ bits) ^ k < 2 ^ rb' :=
+      Nat.div_lt_of_lt_mul (by rw [hRk]; exact hTlt)
+    obtain ⟨K', e1, e2⟩ := inexactOuter_spec hb hbw hb8 cs _ rb'
+      (fun c hc => hcs c (by simp [hc])) hml hr'
+    refine ⟨k + K', ?_, ?_⟩
+    · rw [e1, emit_add]
+      have hV : r + 2 ^ rbits * U w (c :: cs)
+          = (r + c * 2 ^ rbits) + (2 ^ bits) ^ k * (2 ^ rb' * U w cs) := by
+        rw [← Nat.mul_assoc, hRk, U_cons, Nat.pow_add]; unfold B; ring
+      rw [hV, emit_add_mul _ (Nat.pow_pos (by omega)),
+        Nat.add_mul_div_left _ _ (Nat.pow_pos (Nat.pow_pos (by omega)))]
+    · simp only [List.length_cons]
+      have := Nat.mul_add bits k K'
+      have := Nat.mul_add w cs.length 1
+      omega
+
+theorem popZeros_cons (a : Nat) (l : List Nat) :
+    popZeros (a :: l) = if popZeros l = [] then (if a = 0 then [] else [a]) else a :: popZeros l := by
+  unfold popZeros
+  rw [List.reverse_cons, List.dropWhile_append]
+  by_cases h : (l.reverse.dropWhile (· == 0)) = []
+  · simp only [h, List.isEmpty_nil, if_true, List.reverse_nil]
+    by_cases ha : a = 0
+    · simp [ha]
+    · simp [ha]
+  · have h1 : (l.reverse.dropWhile (· == 0)).isEmpty = false := by
+      cases h' : l.reverse.dropWhile (· == 0) <;> simp_all
+    have h2 : (l.reverse.dropWhile (· == 0)).reverse ≠ [] := by simpa using h
+    simp [h1, h2]
+
+theorem digitsLE_eq_nil {r v : Nat} (hr : 2 ≤ r) : digitsLE r v = [] ↔ v = 0 := by
+  constructor
+  · intro h
+    by_contra hv
+    rw [digitsLE_pos hr (by omega)] at h
+    simp at h
+  · rintro rfl; rfl
+
+theorem popZeros_emit {R : Nat} (hR : 2 ≤ R) : ∀ (K v : Nat), v < R ^ K →
+    popZeros (emit R K v) = digitsLE R v
+  | 0, v, h => by
+    have : v = 0 := by simpa using h
+    subst this; rfl
+  | K + 1, v, h => by
+    have hq : v / R < R ^ K := by
+      rw [Nat.pow_succ] at h; exact Nat.div_lt_of_lt_mul (by rw [Nat.mul_comm]; exact h)
+    rw [emit_succ', popZeros_cons, popZeros_emit hR K _ hq]
+    by_cases hv : v = 0
+    · subst hv; simp [digitsLE_zero]
+    · rw [digitsLE_pos (v := v) hR (by omega)]
+      by_cases hq0 : v / R = 0
+      · have hlt : v < R := by
+          rcases Nat.div_eq_zero_iff.mp hq0 with h | h
+          · omega
+          · exact h
+        simp [hq0, digitsLE_zero, Nat.mod_eq_of_lt hlt, hv]
+      · have : digitsLE R (v / R) ≠ [] := fun e => hq0 ((digitsLE_eq_nil hR).mp e)
+        simp [this]
+
+theorem toInexactBitwiseDigitsLe_spec {w n bits : Nat} {x : List Nat} (hb : 1 ≤ bits) (hbw : bits ≤ w)
+    (hb8 : bits ≤ 8) (hx : WF w n x) :
+    toInexactBitwiseDigitsLe w x bits = digitsLE (2 ^ bits) (U w x) := by
+  have hR : 2 ≤ 2 ^ bits := by
+    calc 2 = 2 ^ 1 := rfl
+      _ ≤ 2 ^ bits := Nat.pow_le_pow_right (by omega) hb
+  unfold toInexactBitwiseDigitsLe
+  simp only [mask_eq]
+  obtain ⟨K, e1, e2⟩ := inexactOuter_spec hb hbw hb8 x 0 0 (fun c hc => hx.2 c hc) (by omega)
+    (by simp)
+  rw [e1]
+  simp only [Nat.pow_zero, Nat.one_mul, Nat.zero_add] at e2 ⊢
+  apply popZeros_emit hR
+  have h1 := U_lt hx
+  have h2 : M w n ≤ (2 ^ bits) ^ K := by
+    unfold M; rw [← Nat.pow_mul, ← hx.1]; exact Nat.pow_le_pow_right (by omega) e2
+  omega
+
+/-! ### `to_radix_le` / `to_radix_be` / `to_str_radix` -/
+
+set_option maxRecDepth 100000 in
+theorem pow2_table : ∀ r, r < 257 → 2 ≤ r → u32IsPowerOfTwo r = true →
+    (r = 2 ^ ilog2 r ∧ 1 ≤ ilog2 r ∧ ilog2 r ≤ 8) := by decide
+
+end Radix
+
+theorem UI.toRadixLe_spec {w n r : Nat} {x : List Nat} (hn : 1 ≤ n) (hw8 : 8 ≤ w) (hx : WF w n x)
+    (hr : 2 ≤ r) (hr256 : r ≤ 256) :
+    UI.toRadixLe w x r = .ok (Spec.Radix.canonLE r (U w x)) := by
+  open Radix Spec.Radix in
+  unfold UI.toRadixLe canonLE
+  have hin : inRange r 256 = true := by simp [inRange, hr, hr256]
+  rw [hin]
+  simp only [Bool.not_true, Bool.false_eq_true, if_false]
+  by_cases hz : U w x = 0
+  · rw [if_pos ((isZero_iff x).mpr hz), if_pos hz]
+  · have hzf : ¬ isZero x = true := fun h => hz ((isZero_iff x).mp h)
+    rw [if_neg hzf, if_neg hz]
+    have hB := B_ge_256 hw8
+    by_cases hp : u32IsPowerOfTwo r = true
+    · rw [if_pos hp]
+      obtain ⟨e, k1, k8⟩ := pow2_table r (by omega) hr hp
+      generalize ilog2 r = k at *
+      by_cases h8 : (w == 8 && r == 256) = true
+      · rw [if_pos h8]
+        simp only [Bool.and_eq_true, beq_iff_eq] at h8
+        obtain ⟨rfl, h256⟩ := h8
+        rw [lastDigitIndex_eq_ldiRec, take_ldi_succ_eq hx hz, h256]; rfl
+      · rw [if_neg h8]
+        by_cases hd : (w % k == 0) = true
+        · rw [if_pos hd]
+          have hdk : w = k * (w / k) := by
+            have := Nat.div_add_mod w k
+            have : w % k = 0 := by simpa using hd
+            omega
+          rw [toBitwiseDigitsLe_spec k1 hdk hx hz, ← e]
+        · rw [if_neg hd, toInexactBitwiseDigitsLe_spec k1 (by omega) k8 hx, ← e]
+    · rw [if_neg hp]
+      have hne : r ≠ 256 := by
+        intro h; subst h; exact hp (by decide)
+      have hlt : r < B w := by omega
+      by_cases h10 : r = 10
+      · subst h10; simp only [beq_self_eq_true, if_true]
+        exact toRadixDigitsLe_spec hn hr hlt hx
+      · have : (r == 10) = false := by simpa using h10
+        rw [this]; simp only [Bool.false_eq_true, if_false]
+        exact toRadixDigitsLe_spec hn hr hlt hx
+
+theorem UI.toRadixBe_spec {w n r : Nat} {x : List Nat} (hn : 1 ≤ n) (hw8 : 8 ≤ w) (hx : WF w n x)
+    (hr : 2 ≤ r) (hr256 : r ≤ 256) :
+    UI.toRadixBe w x r = .ok (Spec.Radix.canonBE r (U w x)) := by
+  unfold UI.toRadixBe; rw [UI.toRadixLe_spec hn hw8 hx hr hr256]; rfl
+
+theorem Radix.digitToAscii_eq : UI.digitToAscii = Spec.Radix.digitChar := by
+  funext d; unfold UI.digitToAscii Spec.Radix.digitChar; split <;> omega
+
+/-- `to_str_radix` is the lowercase ASCII image of the canonical numeral -/
+theorem UI.toStrRadix_spec {w n r : Nat} {x : List Nat} (hn : 1 ≤ n) (hw8 : 8 ≤ w) (hx : WF w n x)
+    (hr : 2 ≤ r) (hr36 : r ≤ 36) :
+    UI.toStrRadix w x r
+      = .ok ((Spec.Radix.canonBE r (U w x)).map Spec.Radix.digitChar) := by
+  unfold UI.toStrRadix
+  have hin : Radix.inRange r 36 = true := by simp [Radix.inRange, hr, hr36]
+  rw [hin, UI.toRadixBe_spec hn hw8 hx hr (by omega), Radix.digitToAscii_eq]; rfl
+
+theorem II.toStrRadix_spec {w n r : Nat} {x : List Nat} (hn : 1 ≤ n) (hw8 : 8 ≤ w) (hx : WF w n x)
+    (hr : 2 ≤ r) (hr36 : r ≤ 36) :
+    II.toStrRadix w x r = .ok (Spec.Radix.canonStr r (S w x)) := by
+  unfold II.toStrRadix Spec.Radix.canonStr
+  obtain ⟨a1, a2⟩ := II.unsignedAbs_spec (show 2 ≤ w by omega) hn hx
+  by_cases hneg : isNegative w x = true
+  · have hs := (isNegative_iff' (by omega) hn hx).mp hneg
+    rw [if_pos hneg, if_pos hs, UI.toStrRadix_spec hn hw8 a1 hr hr36, a2]; rfl
+  · have hs := (isNegative_false_iff (by omega) hn hx).mp (by simpa using hneg)
+    rw [if_neg hneg, if_neg (by omega), UI.toStrRadix_spec hn hw8 hx hr hr36]
+    have := S_of_nonneg hx hs
+    have e : (S w x).natAbs = U w x := by omega
+    rw [e]
+
+namespace Radix
+open Spec.Radix
+
+/-! ### canonical numerals are in the grammar and denote the value (round trips) -/
+
+theorem digitsAux_lt {r : Nat} (hr : 0 < r) : ∀ (f v d : Nat), d ∈ digitsAux r f v → d < r
+  | 0, _, _, h => by simp [digitsAux] at h
+  | f + 1, v, d, h => by
+    unfold digitsAux at h
+    split at h
+    · simp at h
+    · rcases List.mem_cons.mp h with h | h
+      · rw [h]; exact Nat.mod_lt _ hr
+      · exact digitsAux_lt hr f _ d h
+
+theorem valueOfLE_digitsAux {r : Nat} (hr : 2 ≤ r) : ∀ (f v : Nat), v ≤ f →
+    valueOfLE r (digitsAux r f v) = v
+  | 0, v, h => by
+    have : v = 0 := by omega
+    subst this; rfl
+  | f + 1, v, h => by
+    unfold digitsAux
+    by_cases hv : v = 0
+    · subst hv; rfl
+    · rw [if_neg hv]
+      have : v / r < v := Nat.div_lt_self (by omega) (by omega)
+      simp only [valueOfLE]
+      rw [valueOfLE_digitsAux hr f (v / r) (by omega)]
+      exact Nat.mod_add_div v r
+
+theorem canonLE_lt {r v : Nat} (hr : 2 ≤ r) : ∀ d ∈ canonLE r v, d < r := by
+  intro d hd
+  unfold canonLE at hd
+  split at hd
+  · simp at hd; omega
+  · exact digitsAux_lt (by omega) _ _ d hd
+
+theorem valueOfLE_canonLE {r : Nat} (hr : 2 ≤ r) (v : Nat) : valueOfLE r (canonLE r v) = v := by
+  unfold canonLE
+  split
+  · rename_i h; subst h; simp [valueOfLE]
+  · exact valueOfLE_digitsAux hr v v (Nat.le_refl _)
+
+theorem canonLE_ne_nil {r : Nat} (hr : 2 ≤ r) (v : Nat) : canonLE r v ≠ [] := by
+  unfold canonLE
+  split
+  · simp
+  · rename_i h
+    intro e
+    exact h ((digitsLE_eq_nil hr).mp e)
+
+theorem valueOf_canonBE {r : Nat} (hr : 2 ≤ r) (v : Nat) : valueOf r (canonBE r v) = v := by
+  unfold canonBE; rw [valueOf_reverse, valueOfLE_canonLE hr]
+
+theorem charDigit_digitChar {d : Nat} (hd : d < 36) : charDigit (digitChar d) = some d := by
+  unfold charDigit digitChar
+  split_ifs <;> first | (congr 1; omega) | omega
+
+theorem digitChar_range {d : Nat} (hd : d < 36) : digitChar d ≠ 43 ∧ digitChar d ≠ 45 := by
+  unfold digitChar; split <;> omega
+
+theorem digitsOf_map_digitChar {r : Nat} (hr36 : r ≤ 36) : ∀ (ds : List Nat), (∀ d ∈ ds, d < r) →
+    digitsOf r (ds.map digitChar) = some ds
+  | [], _ => rfl
+  | d :: ds, h => by
+    have hd : d < r := h d (by simp)
+    simp only [List.map_cons, digitsOf, charDigit_digitChar (show d < 36 by omega), hd, if_true,
+      digitsOf_map_digitChar hr36 ds (fun e he => h e (by simp [he]))]
+
+theorem Grammar_canonStr {r : Nat} (hr : 2 ≤ r) (hr36 : r ≤ 36) (sg : Bool) (z : Int)
+    (hz : sg = true ∨ 0 ≤ z) :
+    Grammar r sg (canonStr r z) = some (decide (z < 0), canonBE r z.natAbs) := by
+  have hne : canonBE r z.natAbs ≠ [] := by
+    unfold canonBE; simpa using canonLE_ne_nil hr z.natAbs
+  have hlt : ∀ d ∈ canonBE r z.natAbs, d < r := by
+    intro d hd; unfold canonBE at hd; exact canonLE_lt hr d (by simpa using hd)
+  have hdo := digitsOf_map_digitChar hr36 _ hlt
+  have hmne : (canonBE r z.natAbs).map digitChar ≠ [] := by simpa using hne
+  unfold Grammar canonStr
+  by_cases hneg : z < 0
+  · have hsg : sg = true := by rcases hz with h | h; exact h; omega
+    subst hsg
+    rw [if_pos hneg]
+    simp only [splitSign]
+    have : ((canonBE r z.natAbs).map digitChar).isEmpty = false := by
+      cases h : (canonBE r z.natAbs).map digitChar <;> simp_all
+    simp [this, hdo, hneg]
+  · rw [if_neg hneg]
+    match hc : canonBE r z.natAbs, hne with
+    | d :: ds, _ =>
+      rw [hc] at hdo hlt
+      obtain ⟨h43, h45⟩ := digitChar_range (show d < 36 by have := hlt d (by simp); omega)
+      simp only [List.map_cons, splitSign, h43, h45, if_false, false_and]
+      simp only [List.map_cons] at hdo
+      simp [hdo, hneg]
+
+theorem denote_canon {r : Nat} (hr : 2 ≤ r) (z : Int) :
+    denote r (decide (z < 0), canonBE r z.natAbs) = z := by
+  unfold denote
+  rw [valueOf_canonBE hr]
+  by_cases h : z < 0
+  · simp only [h, decide_true, if_true]; omega
+  · simp only [h, decide_false, Bool.false_eq_true, if_false]; omega
+
+theorem ofInt_U {w n : Nat} {x : List Nat} (hx : WF w n x) : ofInt w n (U w x : Int) = x := by
+  rw [ofInt_natCast (U_lt hx)]; exact (eq_ofNat hx).symm
+
+theorem ofInt_S {w n : Nat} {x : List Nat} (hx : WF w n x) : ofInt w n (S w x) = x := by
+  apply U_injective (WF_ofInt w n _) hx
+  unfold ofInt
+  rw [U_ofNat, Nat.mod_eq_of_lt (wrapU_lt (M_pos w n) _), S_eq hx, wrapU_toInt (U_lt hx)]
+
+theorem digitsAux_getLast {r : Nat} (hr : 2 ≤ r) : ∀ (f v : Nat), v ≤ f → v ≠ 0 →
+    (digitsAux r f v).getLast? ≠ some 0
+  | 0, v, h, hv => by omega
+  | f + 1, v, h, hv => by
+    unfold digitsAux
+    rw [if_neg hv]
+    have hlt : v / r < v := Nat.div_lt_self (by omega) (by omega)
+    by_cases hq : v / r = 0
+    · have : digitsAux r f (v / r) = [] := by rw [hq]; cases f <;> simp [digitsAux]
+      rw [this]
+      have hvr : v < r := by
+        rcases Nat.div_eq_zero_iff.mp hq with h | h
+        · omega
+        · exact h
+      simp [Nat.mod_eq_of_lt hvr, hv]
+    · have ih := digitsAux_getLast hr f (v / r) (by omega) hq
+      cases hd : digitsAux r f (v / r) with
+      | nil =>
+        exfalso
+        have hq1 : 1 ≤ v / r := Nat.pos_of_ne_zero hq
+        generalize v / r = q at *
+        obtain ⟨f', rfl⟩ : ∃ f', f = f' + 1 := ⟨f - 1, by omega⟩
+        simp [digitsAux, hq] at hd
+      | cons a as => rw [hd] at ih; rw [List.getLast?_cons_cons]; exact ih
+
+theorem canonLE_getLast {r v : Nat} (hr : 2 ≤ r) (hv : v ≠ 0) : (canonLE r v).getLast? ≠ some 0 := by
+  unfold canonLE; rw [if_neg hv]; exact digitsAux_getLast hr v v (Nat.le_refl _) hv
+
 end Radix
 end Bnum
